@@ -4,4 +4,6 @@ EXTENDS Integers, Sequences
 KF_C13(o, why) == "NEW"
 KF_C14(o, r, why) == "NEW"
 KF_C02(o) == "NEW"
+KF_C04Attr(o, missing) == "NEW"
+KF_Compile(o) == "NEW"
 ==============================================================================
